@@ -237,6 +237,7 @@ def run_protocol(ck, repo, rule='B3', only_entries=None, only_dims=None, contain
     cls = P.container
     per_entry = {}
     own = {}
+    dirty = {}
     ents = entries_of(repo, cls)
     for f in ents:
         exits = P.analyse_entry(f, cls)
@@ -248,6 +249,9 @@ def run_protocol(ck, repo, rule='B3', only_entries=None, only_dims=None, contain
                 if o[2] != 'SELF':
                     continue
                 pend.setdefault((o[0], o[1], o[3]), (o, set()))[1].add((kind, line))
+            for x in c[1]:
+                if x[0] == 'DIRTY' and kind in ('return', 'end'):
+                    dirty.setdefault((f.fq, x[1][0], x[1][1]), set()).add((kind, line))
         per_entry[f] = pend
     # which origins are already reported by their own function acting as an entry
     own_reports = {}
@@ -347,6 +351,19 @@ def run_protocol(ck, repo, rule='B3', only_entries=None, only_dims=None, contain
                                                     f'without a flush or an explicit drop of that key in between: if the value was cached before the write (e.g. str(mol) was taken '
                                                     f'earlier) the method decides on stale data, otherwise on fresh data -- cached and uncached calls differ',
                    file=repo.func(func_fq).file, line=line, func=fq, construct=f'self.{attr}')
+        seen_d = set()
+        for (entry_fq, key, origin), ex in sorted(dirty.items(), key=str):
+            eq = entry_fq.split(':')[1]
+            if only_entries is not None and eq not in only_entries:
+                continue
+            if (eq, key) in seen_d:
+                continue
+            seen_d.add((eq, key))
+            ck.bad(rule, f'{eq}|interim-cache|{key}', f'{eq} can return ({", ".join(f"{k}@{l}" for k, l in sorted(ex)[:3])}) with `{key}` still cached although it was computed before '
+                                                      f'the raw write `{origin[2]}` (line {origin[1]}) and neither dropped nor flushed afterwards: later readers get a value for a state '
+                                                      f'that no longer exists', file=repo.func(origin[0]).file, line=origin[1], func=eq, construct=origin[2])
+        if not seen_d:
+            ck.ok(rule, 'interim-cache', 'no method returns with a cached value that was computed before one of its own raw writes')
         if not seen_sr:
             ck.ok(rule, 'stale-reads', f'no cached value is read between a raw write it depends on and the next flush / drop ({len(P.cached_read_sets())} cached properties typed)')
     return P
